@@ -1,5 +1,775 @@
-//! C01 — not built yet.
+//! C01 — group scoping in the VM: local assignments are undone when the group closes, global ones
+//! survive at any depth, `\global` / `\globaldefs` affect exactly one assignment.
+//! Engines: BEX (operation histories per target kind, deep nests, kind pairs) + XS (explicit-state
+//! search per kind, merged on the drained implementation state). DESIGN.md §3 C01.
+//!
+//! Every case is one TeX program run on a fresh real VM (`vtex::HState`, real stdlib built-ins):
+//!   setup ; probe  op1 ; probe  op2 ; probe … [ } ; probe ]*
+//! where `probe` reads every target of the case. The oracle (`model.rs`, a stack of snapshots) is
+//! compared with the implementation after EVERY operation.
+
+mod kinds;
+mod model;
+
+use kinds::{Class, Kind};
+use model::{effective_scope, Snapshots};
+use serde_json::{json, Value};
+use std::collections::BTreeMap;
+use std::sync::Mutex;
+use vcore::{Acc, Ctx, Level};
+use vtex::texlang::{command, types, vm};
+
+// ---------------------------------------------------------------- the VM under test
+
+/// vtex::builtins() plus twenty font selectors \fna … \fnt (Font(1) … Font(20)), so that the n-th
+/// font assignment of a history is distinguishable from all others.
+fn new_vm() -> Box<vtex::Vm> {
+    let mut m = vtex::builtins();
+    const NAMES: [&str; 20] = ["fna", "fnb", "fnc", "fnd", "fne", "fnf", "fng", "fnh", "fni", "fnj", "fnk", "fnl", "fnm", "fnn", "fno", "fnp", "fnq", "fnr", "fns", "fnt"];
+    for (i, n) in NAMES.iter().enumerate() {
+        m.insert(n, command::BuiltIn::new_font(types::Font(i as u16 + 1)));
+    }
+    let mut vm = vm::VM::<vtex::HState>::new_with_built_in_commands(m);
+    vm.state.time = vtex::texlang_stdlib::time::Component::new_with_values(0, 1, 1, 2000);
+    vtex::prepare(&mut vm);
+    Box::new(vm)
+}
+
+// ---------------------------------------------------------------- programs
+
+#[derive(Clone, Copy, PartialEq, Eq, Debug)]
+enum Op {
+    Open,
+    Close,
+    /// assignment to target `tgt` (index into Prog::targets) with form `f`, prefixed by \global if `g`
+    Assign { tgt: u8, f: u8, g: bool },
+}
+
+#[derive(Clone, Copy, PartialEq, Eq, Debug)]
+enum ValueRule {
+    /// the n-th assignment of the program writes value n (unique inside the program)
+    Counter,
+    /// the value is a function of (nesting depth, prefix): 2*depth + g. Used by XS, where the value
+    /// must be a function of the state for merged states to have equal futures.
+    ByDepth,
+}
+
+struct Prog<'a> {
+    family: &'static str,
+    kinds: Vec<&'a Kind>,
+    /// (index into kinds, target index)
+    targets: Vec<(usize, usize)>,
+    ops: Vec<Op>,
+    rule: ValueRule,
+    /// after the history, close every open group with a probe after each `}`
+    drain: bool,
+}
+
+#[derive(Default, Clone)]
+struct Flags {
+    nontrivial: bool,
+    purge_depth_ge_2: bool,
+    local_then_global: bool,
+    global_then_local: bool,
+    restore_shadowed_twice: bool,
+    active_restored: bool,
+    font_restored: bool,
+    command_restored: bool,
+    globaldefs_forced_global: bool,
+    globaldefs_forced_local: bool,
+    max_depth: usize,
+}
+
+struct Built {
+    src: String,
+    /// expected observation (one string per target) at every probe point
+    expected: Vec<Vec<String>>,
+    /// history points (= ops.len()+1); drain points follow
+    hist_points: usize,
+    flags: Flags,
+    /// depth after the history
+    depth: usize,
+}
+
+/// a probe point is written `;v1,v2:` – the terminator tells a complete probe from one cut short by a fatal error
+const SEP: char = ';';
+const TSEP: char = ',';
+const END: char = ':';
+
+impl<'a> Prog<'a> {
+    fn target(&self, i: usize) -> &'a kinds::Target {
+        let (k, t) = self.targets[i];
+        &self.kinds[k].targets[t]
+    }
+    fn probe_text(&self) -> String {
+        let mut s = String::new();
+        s.push(SEP);
+        for i in 0..self.targets.len() {
+            if i > 0 {
+                s.push(TSEP);
+            }
+            s.push_str(&self.target(i).probe);
+        }
+        s.push(END);
+        s
+    }
+    /// None if the history closes a group that is not open.
+    fn build(&self) -> Option<Built> {
+        let mut src = String::new();
+        let mut seen = vec![];
+        for k in &self.kinds {
+            if !seen.contains(&k.setup) {
+                src.push_str(&k.setup);
+                seen.push(k.setup.clone());
+            }
+        }
+        for i in 0..self.targets.len() {
+            src.push_str(&self.target(i).setup);
+        }
+        let probe = self.probe_text();
+        src.push_str(&probe);
+        let mut m = Snapshots::new((0..self.targets.len()).map(|i| self.target(i).initial.clone()).collect());
+        let gd_target = (0..self.targets.len()).find(|i| self.kinds[self.targets[*i].0].class == Class::GlobalDefs);
+        let mut expected = vec![m.top().clone()];
+        let mut flags = Flags::default();
+        let mut n = 0usize;
+        for op in &self.ops {
+            match *op {
+                Op::Open => {
+                    src.push('{');
+                    m.open();
+                    flags.max_depth = flags.max_depth.max(m.depth());
+                }
+                Op::Close => {
+                    src.push('}');
+                    let ev = m.close()?;
+                    if ev.close_with_saved {
+                        flags.nontrivial = true;
+                    }
+                    flags.restore_shadowed_twice |= ev.restore_shadowed_twice;
+                    if let Some(t) = ev.restored_target {
+                        match self.kinds[self.targets[t].0].class {
+                            Class::ActiveChar => flags.active_restored = true,
+                            Class::Font => flags.font_restored = true,
+                            Class::ControlSequence => flags.command_restored = true,
+                            _ => {}
+                        }
+                    }
+                }
+                Op::Assign { tgt, f, g } => {
+                    let tgt = tgt as usize;
+                    let kind = self.kinds[self.targets[tgt].0];
+                    let form = &self.target(tgt).forms[f as usize];
+                    let i = match self.rule {
+                        ValueRule::Counter => n % kind.nvals,
+                        ValueRule::ByDepth => (2 * m.depth() + g as usize) % kind.nvals,
+                    };
+                    n += 1;
+                    let gd: i64 = gd_target.map(|t| m.get(t).parse().unwrap()).unwrap_or(0);
+                    let scope = effective_scope(g, form.gdef, gd);
+                    if gd > 0 && !g && !form.gdef {
+                        flags.globaldefs_forced_global = true;
+                    }
+                    if gd < 0 && g {
+                        flags.globaldefs_forced_local = true;
+                    }
+                    let new = (form.apply)(m.get(tgt), i);
+                    if g {
+                        src.push_str("\\global");
+                    }
+                    src.push_str(&(form.text)(i));
+                    let ev = m.assign(tgt, new, scope);
+                    flags.purge_depth_ge_2 |= ev.purge_depth_ge_2;
+                    flags.local_then_global |= ev.local_then_global_same_group;
+                    flags.global_then_local |= ev.global_then_local_same_group;
+                }
+            }
+            src.push_str(&probe);
+            expected.push(m.top().clone());
+        }
+        let hist_points = expected.len();
+        let depth = m.depth();
+        if self.drain {
+            while m.depth() > 0 {
+                src.push('}');
+                m.close();
+                src.push_str(&probe);
+                expected.push(m.top().clone());
+            }
+        }
+        Some(Built { src, expected, hist_points, flags, depth })
+    }
+    /// Human-readable history up to and including op `upto` (exclusive end).
+    fn shape(&self, upto: usize) -> String {
+        let simple = self.targets.len() == 1 && self.ops.iter().all(|o| !matches!(o, Op::Assign { f, .. } if *f != 0));
+        let mut s = String::new();
+        for op in &self.ops[..upto.min(self.ops.len())] {
+            if !s.is_empty() {
+                s.push(' ');
+            }
+            match *op {
+                Op::Open => s.push('{'),
+                Op::Close => s.push('}'),
+                Op::Assign { tgt, f, g } => {
+                    s.push(if g { 'G' } else { 'L' });
+                    if !simple {
+                        let t = self.target(tgt as usize);
+                        s.push_str(&format!("({}:{})", t.name, t.forms[f as usize].name));
+                    }
+                }
+            }
+        }
+        s
+    }
+    fn case_json(&self, built: &Built) -> Value {
+        json!({
+            "family": self.family,
+            "kinds": self.kinds.iter().map(|k| k.name).collect::<Vec<_>>(),
+            "targets": self.targets.iter().map(|(k, t)| json!([k, t])).collect::<Vec<_>>(),
+            "ops": self.ops.iter().map(|o| match *o { Op::Open => json!("{"), Op::Close => json!("}"), Op::Assign { tgt, f, g } => json!([tgt, f, g]) }).collect::<Vec<_>>(),
+            "value_rule": if self.rule == ValueRule::Counter { "counter" } else { "by-depth" },
+            "drain": self.drain,
+            "history": self.shape(self.ops.len()),
+            "program": built.src,
+        })
+    }
+}
+
+fn prog_from_json<'a>(all: &'a [Kind], case: &Value) -> Option<Prog<'a>> {
+    let kinds: Vec<&Kind> = case["kinds"].as_array()?.iter().map(|n| all.iter().find(|k| Some(k.name) == n.as_str())).collect::<Option<_>>()?;
+    let targets = case["targets"].as_array()?.iter().map(|p| Some((p[0].as_u64()? as usize, p[1].as_u64()? as usize))).collect::<Option<Vec<_>>>()?;
+    let ops = case["ops"]
+        .as_array()?
+        .iter()
+        .map(|o| match o {
+            Value::String(s) if s == "{" => Some(Op::Open),
+            Value::String(s) if s == "}" => Some(Op::Close),
+            Value::Array(a) => Some(Op::Assign { tgt: a[0].as_u64()? as u8, f: a[1].as_u64()? as u8, g: a[2].as_bool()? }),
+            _ => None,
+        })
+        .collect::<Option<Vec<_>>>()?;
+    let rule = if case["value_rule"] == "by-depth" { ValueRule::ByDepth } else { ValueRule::Counter };
+    Some(Prog { family: "replay", kinds, targets, ops, rule, drain: case["drain"].as_bool().unwrap_or(false) })
+}
+
+// ---------------------------------------------------------------- execution and comparison
+
+#[derive(Clone, Debug, PartialEq, Eq)]
+enum Exec {
+    /// probe segments (one Vec<String> per probe point reached), text before the first probe, fatal error
+    Done { points: Vec<Vec<String>>, prelude: String, err: Option<String> },
+    Cutoff,
+    Panic(String),
+}
+
+fn execute(src: &str) -> Exec {
+    match vcore::catch(|| {
+        let mut vm = new_vm();
+        vtex::run(&mut vm, src)
+    }) {
+        Ok(r) => {
+            let mut segs: Vec<&str> = r.out.split(SEP).collect();
+            let prelude = segs.remove(0).to_string();
+            // a probe is complete if its terminator was delivered; what follows the terminator of
+            // the last probe is the end-of-line token of the single source line
+            let points = segs.iter().filter_map(|s| s.split_once(END)).map(|(s, _)| s.split(TSEP).map(|x| x.to_string()).collect()).collect();
+            Exec::Done { points, prelude, err: r.err }
+        }
+        Err(p) if p.cutoff => Exec::Cutoff,
+        Err(p) => Exec::Panic(p.describe()),
+    }
+}
+
+struct Mismatch {
+    /// probe point of the first divergence (0 = before the first op)
+    pos: usize,
+    expected: String,
+    observed: String,
+}
+
+fn compare(built: &Built, e: &Exec) -> Result<(), Mismatch> {
+    match e {
+        Exec::Cutoff => Ok(()),
+        Exec::Panic(p) => Err(Mismatch { pos: 0, expected: "the program runs".into(), observed: p.clone() }),
+        Exec::Done { points, prelude, err } => {
+            if !prelude.is_empty() {
+                return Err(Mismatch { pos: 0, expected: "no output from the setup".into(), observed: format!("{prelude:?}") });
+            }
+            for (i, want) in built.expected.iter().enumerate() {
+                match points.get(i) {
+                    Some(got) if got == want => {}
+                    Some(got) => return Err(Mismatch { pos: i, expected: format!("{want:?}"), observed: format!("{got:?}") }),
+                    None => return Err(Mismatch { pos: i, expected: format!("{want:?}"), observed: format!("the run ended before this probe; fatal error: {err:?}") }),
+                }
+            }
+            if points.len() != built.expected.len() || err.is_some() {
+                return Err(Mismatch { pos: built.expected.len(), expected: "the run ends after the last probe without error".into(), observed: format!("{} probe points, error {err:?}", points.len()) });
+            }
+            Ok(())
+        }
+    }
+}
+
+const REEXEC: usize = 5;
+
+/// first failing history per kind (shortest, then smallest index), for the evidence file
+static WITNESSES: Mutex<BTreeMap<String, ((usize, &'static str, u64), Value)>> = Mutex::new(BTreeMap::new());
+
+/// Runs one case. Returns the probe points of the implementation if it agreed with the model.
+fn run_case(idx: u64, prog: &Prog, acc: &mut Acc) -> Option<(Built, Vec<Vec<String>>)> {
+    let built = match prog.build() {
+        Some(b) => b,
+        None => {
+            acc.skipped += 1;
+            return None;
+        }
+    };
+    acc.eval();
+    acc.traces_validated += 1;
+    let f = &built.flags;
+    if f.nontrivial {
+        acc.nontrivial();
+    }
+    for (on, name) in [
+        (f.purge_depth_ge_2, "global_purged_saved_value_at_depth_ge_2"),
+        (f.local_then_global, "local_then_global_same_group"),
+        (f.global_then_local, "global_then_local_same_group"),
+        (f.restore_shadowed_twice, "restore_of_value_shadowed_twice"),
+        (f.active_restored, "active_char_target_restored"),
+        (f.font_restored, "font_restored"),
+        (f.command_restored, "control_sequence_target_restored"),
+        (f.globaldefs_forced_global, "globaldefs_positive_forced_global"),
+        (f.globaldefs_forced_local, "globaldefs_negative_overrode_global_prefix"),
+        (f.max_depth >= 8, "nesting_depth_8_reached"),
+    ] {
+        if on {
+            acc.count(name);
+        }
+    }
+    let first = execute(&built.src);
+    if first == Exec::Cutoff {
+        acc.cutoffs += 1;
+        return None;
+    }
+    match compare(&built, &first) {
+        Ok(()) => {
+            acc.class(&format!("ok {} depth<={} closes-with-saved={}", prog.kinds.iter().map(|k| k.name).collect::<Vec<_>>().join("+"), f.max_depth, f.nontrivial));
+            match first {
+                Exec::Done { points, .. } => Some((built, points)),
+                _ => None,
+            }
+        }
+        Err(mut mm) => {
+            // the subject's hash order is not controllable: re-execute, any failing execution counts
+            let mut failing = 1;
+            for _ in 1..REEXEC {
+                let e = execute(&built.src);
+                match compare(&built, &e) {
+                    Ok(()) => {}
+                    Err(m2) => {
+                        failing += 1;
+                        if m2.pos < mm.pos {
+                            mm = m2;
+                        }
+                    }
+                }
+            }
+            let wlen = mm.pos.min(built.expected.len() - 1);
+            let mut witness = prog.shape(wlen);
+            for _ in prog.ops.len()..wlen {
+                witness.push_str(" }");
+            }
+            let kindnames = prog.kinds.iter().map(|k| k.name).collect::<Vec<_>>().join("+");
+            let last_op = if mm.pos == 0 || mm.pos > prog.ops.len() {
+                if mm.pos == 0 { "start".to_string() } else { "drain".to_string() }
+            } else {
+                match prog.ops[mm.pos - 1] {
+                    Op::Open => "{".into(),
+                    Op::Close => "}".into(),
+                    Op::Assign { tgt, f, g } => format!("{}{}:{}", if g { "\\global " } else { "" }, prog.kinds[prog.targets[tgt as usize].0].name, prog.target(tgt as usize).forms[f as usize].name),
+                }
+            };
+            acc.class(&format!("FAIL {kindnames}: first divergence after `{last_op}`"));
+            let mut case = prog.case_json(&built);
+            case["witness"] = json!(witness);
+            case["executions_failing"] = json!(format!("{failing}/{REEXEC}"));
+            case["order_dependent"] = json!(failing < REEXEC);
+            {
+                let mut w = WITNESSES.lock().unwrap();
+                let key = (wlen, prog.family, idx);
+                let better = match w.get(&kindnames) {
+                    None => true,
+                    Some((k, _)) => key < *k,
+                };
+                if better && prog.kinds.len() == 1 {
+                    w.insert(kindnames.clone(), (key, json!({"family": prog.family, "history": witness, "expected": mm.expected, "observed": mm.observed})));
+                }
+            }
+            // shortest witnesses first, whatever the enumeration order (xs re-indexes u64::MAX itself)
+            let key = if idx == u64::MAX { idx } else { ((wlen as u64) << 48) | (idx & ((1 << 48) - 1)) };
+            acc.fail(key, case, format!("after `{witness}`: {}", mm.expected), mm.observed, format!("[{kindnames}] implementation differs from the snapshot-stack model at probe point {} (first divergence after `{last_op}`); {failing}/{REEXEC} executions fail", mm.pos));
+            None
+        }
+    }
+}
+
+// ---------------------------------------------------------------- index spaces
+
+/// Concatenation of blocks of different sizes: idx -> (block, index inside the block).
+struct Blocks<T> {
+    items: Vec<T>,
+    ends: Vec<u64>,
+}
+impl<T> Blocks<T> {
+    fn new() -> Self {
+        Blocks { items: vec![], ends: vec![] }
+    }
+    fn push(&mut self, item: T, n: u64) {
+        let e = self.total() + n;
+        self.items.push(item);
+        self.ends.push(e);
+    }
+    fn total(&self) -> u64 {
+        self.ends.last().copied().unwrap_or(0)
+    }
+    fn locate(&self, idx: u64) -> (&T, u64) {
+        let b = self.ends.partition_point(|e| *e <= idx);
+        let start = if b == 0 { 0 } else { self.ends[b - 1] };
+        (&self.items[b], idx - start)
+    }
+}
+
+/// Alphabet over the given targets: `{`, `}`, then for every listed (target, form): local, global.
+fn alphabet(tf: &[(u8, u8)]) -> Vec<Op> {
+    let mut a = vec![Op::Open, Op::Close];
+    for (t, f) in tf {
+        a.push(Op::Assign { tgt: *t, f: *f, g: false });
+        a.push(Op::Assign { tgt: *t, f: *f, g: true });
+    }
+    a
+}
+
+fn pow(k: usize, l: usize) -> u64 {
+    (k as u64).pow(l as u32)
+}
+
+struct HistBlock<'a> {
+    kinds: Vec<&'a Kind>,
+    targets: Vec<(usize, usize)>,
+    alpha: Vec<Op>,
+    len: usize,
+}
+
+fn run_hist_family(ctx: &mut Ctx, name: &'static str, bounds: &str, blocks: Blocks<HistBlock>, sample_every: u64) {
+    let n = blocks.total();
+    ctx.family(name, bounds, n, |idx, acc| {
+        let (b, local) = blocks.locate(idx);
+        let d = vcore::digits(local, &vec![b.alpha.len() as u64; b.len]);
+        let prog = Prog { family: name, kinds: b.kinds.clone(), targets: b.targets.clone(), ops: d.iter().map(|x| b.alpha[*x as usize]).collect(), rule: ValueRule::Counter, drain: false };
+        if let Some((built, _)) = run_case(idx, &prog, acc) {
+            if idx % sample_every == sample_every / 2 {
+                acc.sample(idx, || json!({"family": name, "kinds": prog.kinds.iter().map(|k| k.name).collect::<Vec<_>>(), "history": prog.shape(prog.ops.len()), "program": built.src, "expected_probe_points": built.expected}));
+            }
+        }
+    });
+}
+
+// ---------------------------------------------------------------- main
+
 fn main() {
-    eprintln!("c01: check not built yet");
-    std::process::exit(2);
+    let mut ctx = Ctx::new("C01", Level::ModelChecking);
+    let all = kinds::kinds();
+
+    for e in model::self_validate() {
+        ctx.machinery_error(format!("model self-validation: {e}"));
+    }
+
+    if let Some((_fam, case)) = ctx.replay_case() {
+        let mut acc = Acc::default();
+        match prog_from_json(&all, &case) {
+            Some(p) => {
+                run_case(0, &p, &mut acc);
+            }
+            None => {
+                eprintln!("replay: cannot rebuild the case");
+                std::process::exit(2);
+            }
+        }
+        ctx.finish_replay(acc);
+    }
+
+    ctx.assume("oracle: tex.web §268-284 as a stack of snapshots (model.rs), scope of one assignment per §1211/§1214/§1218; validated against the repository's own TeX-recorded scoping tests before every run");
+    ctx.assume("a history is in the domain only if it never closes a group that is not open (unbalanced histories are skipped, not run)");
+    ctx.assume("the whole program is one source line, so \\endlinechar and \\catcode targets never change how the rest of the program is read; catcode targets are characters that occur only as control symbols (\\|, \\/, \\é, \\ß) and take the codes 1,2,3,4,6,7,8,10,11,13 only");
+    ctx.assume("register aliases and \\mathchardef targets are observed with \\the, which has no error path for an undefined control sequence in texcraft (todo!()), so these targets are pre-defined outside all groups; macro, \\let and \\chardef targets start undefined and 'undefined again after the group' is observed through the undefined-command handler");
+    ctx.assume("\\gdef is not combined with \\globaldefs in one program: with \\globaldefs<0 tex.web §1218 makes \\gdef local while texcraft keeps it global; the property speaks about the prefix, not about \\gdef under a negative \\globaldefs (reported separately in coverage.outside_property)");
+    ctx.assume("hash order inside the subject cannot be seeded: a failing case is re-executed 5 times and reported if any execution fails; passing cases are executed once");
+    ctx.assume("\\let to an undefined command, \\read as an assignment, \\font loading and math fonts are outside the alphabet (DESIGN §3 C01 X)");
+
+    let quick = ctx.quick();
+    let gd_index = all.iter().position(|k| k.class == Class::GlobalDefs).unwrap();
+
+    // ---- (a1) every history over {, }, L, G per kind, first target, first form
+    {
+        let len = ctx.pick(7usize, 9usize);
+        let mut blocks = Blocks::new();
+        for (ki, k) in all.iter().enumerate() {
+            if ki == gd_index {
+                continue;
+            }
+            let alpha = alphabet(&[(0, 0)]);
+            blocks.push(HistBlock { kinds: vec![k], targets: vec![(0, 0)], len, alpha: alpha.clone() }, pow(alpha.len(), len));
+        }
+        run_hist_family(&mut ctx, "histories-1target", &format!("per kind ({} kinds): every history of exactly {len} ops over {{ '{{', '}}', local, \\global }} on the first target (every shorter history is a prefix of one of them and is compared at its last op)", all.len() - 1), blocks, 5003);
+    }
+    // ---- (a1w) thorough only: one op longer, restricted to histories that end outside all groups
+    if !quick {
+        let len = 10usize;
+        let alpha = alphabet(&[(0, 0)]);
+        // all words of length `len` over the 4 ops with non-negative depth everywhere and depth 0 at the end
+        let mut words: Vec<Vec<u8>> = vec![];
+        fn rec(cur: &mut Vec<u8>, depth: usize, len: usize, out: &mut Vec<Vec<u8>>) {
+            if cur.len() == len {
+                if depth == 0 {
+                    out.push(cur.clone());
+                }
+                return;
+            }
+            if depth > len - cur.len() {
+                return;
+            }
+            for a in 0..4u8 {
+                let d = match a {
+                    0 => depth + 1,
+                    1 => {
+                        if depth == 0 {
+                            continue;
+                        }
+                        depth - 1
+                    }
+                    _ => depth,
+                };
+                cur.push(a);
+                rec(cur, d, len, out);
+                cur.pop();
+            }
+        }
+        rec(&mut vec![], 0, len, &mut words);
+        let kinds1: Vec<&Kind> = all.iter().enumerate().filter(|(i, _)| *i != gd_index).map(|(_, k)| k).collect();
+        let nw = words.len() as u64;
+        ctx.family("histories-1target-closed", &format!("per kind ({} kinds): every history of exactly {len} ops over {{, }}, local, \\global that never closes an unopened group and ends at depth 0 ({nw} histories per kind)", kinds1.len()), nw * kinds1.len() as u64, |idx, acc| {
+            let k = kinds1[(idx / nw) as usize];
+            let w = &words[(idx % nw) as usize];
+            let prog = Prog { family: "histories-1target-closed", kinds: vec![k], targets: vec![(0, 0)], ops: w.iter().map(|a| alpha[*a as usize]).collect(), rule: ValueRule::Counter, drain: false };
+            if let Some((built, _)) = run_case(idx, &prog, acc) {
+                if idx % 50021 == 25000 {
+                    acc.sample(idx, || json!({"family": "histories-1target-closed", "kind": k.name, "history": prog.shape(prog.ops.len()), "program": built.src}));
+                }
+            }
+        });
+    }
+    // ---- (a1f) all assignment forms of the first target
+    {
+        let budget: u64 = ctx.pick(8_000, 300_000);
+        let mut blocks = Blocks::new();
+        let mut desc = vec![];
+        for k in all.iter() {
+            let nf = k.targets[0].forms.len();
+            if nf < 2 {
+                continue;
+            }
+            // \gdef is not combined with \globaldefs; no kind has both
+            let tf: Vec<(u8, u8)> = (0..nf).map(|f| (0u8, f as u8)).collect();
+            let alpha = alphabet(&tf);
+            let mut len = 1;
+            while pow(alpha.len(), len + 1) <= budget {
+                len += 1;
+            }
+            desc.push(format!("{}:{}ops^{}", k.name, alpha.len(), len));
+            blocks.push(HistBlock { kinds: vec![k], targets: vec![(0, 0)], len, alpha: alpha.clone() }, pow(alpha.len(), len));
+        }
+        run_hist_family(&mut ctx, "histories-all-forms", &format!("kinds whose first target has several assignment forms (set/\\advance/through-alias, \\def/\\gdef, \\let to macro/char, \\globaldefs=+1/-1/0): every history of exactly L ops over {{, }} and every form local/\\global, L the largest with |alphabet|^L <= {budget}: {}", desc.join(" ")), blocks, 4001);
+    }
+    // ---- (a2) two targets in the same container
+    {
+        let len = ctx.pick(5usize, 7usize);
+        let mut blocks = Blocks::new();
+        let mut nk = 0;
+        for k in all.iter() {
+            if k.targets.len() < 2 {
+                continue;
+            }
+            nk += 1;
+            let alpha = alphabet(&[(0, 0), (1, 0)]);
+            blocks.push(HistBlock { kinds: vec![k], targets: vec![(0, 0), (0, 1)], len, alpha: alpha.clone() }, pow(alpha.len(), len));
+        }
+        run_hist_family(&mut ctx, "histories-2targets", &format!("per kind with two targets in the same container ({nk} kinds): every history of exactly {len} ops over {{, }}, local/\\global assignment to target A, local/\\global to target B; both targets probed after every op"), blocks, 3001);
+    }
+    // ---- (b) straight nests to depth d with clusters in the slots
+    {
+        const CLUSTERS: [&[bool]; 5] = [&[false], &[true], &[false, true], &[true, false], &[false, false]];
+        let depths: Vec<usize> = if quick { vec![4, 8] } else { (1..=8).collect() };
+        let maxc = ctx.pick(2usize, 3usize);
+        struct NB<'a> {
+            kind: &'a Kind,
+            d: usize,
+            tuples: Vec<Vec<usize>>,
+            m: usize,
+        }
+        fn nondecreasing(slots: usize, m: usize) -> Vec<Vec<usize>> {
+            let mut out = vec![];
+            let mut cur = vec![0usize; m];
+            loop {
+                out.push(cur.clone());
+                let mut i = m;
+                loop {
+                    if i == 0 {
+                        return out;
+                    }
+                    i -= 1;
+                    if cur[i] + 1 < slots {
+                        cur[i] += 1;
+                        for j in i + 1..m {
+                            cur[j] = cur[i];
+                        }
+                        break;
+                    }
+                }
+            }
+        }
+        let mut blocks = Blocks::new();
+        for (ki, k) in all.iter().enumerate() {
+            if ki == gd_index {
+                continue;
+            }
+            for &d in &depths {
+                for m in 0..=maxc {
+                    let tuples = nondecreasing(2 * d + 1, m);
+                    let n = tuples.len() as u64 * pow(CLUSTERS.len(), m);
+                    blocks.push(NB { kind: k, d, tuples, m }, n);
+                }
+            }
+        }
+        let n = blocks.total();
+        ctx.family("nest-clusters", &format!("per kind: `{{`^d `}}`^d for d in {depths:?} with 0..={maxc} clusters placed in any of the 2d+1 slots (several per slot allowed, in order), each cluster one of L, G, LG, GL, LL on the first target; probe after every op"), n, |idx, acc| {
+            let (b, local) = blocks.locate(idx);
+            let nc = pow(CLUSTERS.len(), b.m);
+            let tuple = &b.tuples[(local / nc) as usize];
+            let cl = vcore::digits(local % nc, &vec![CLUSTERS.len() as u64; b.m]);
+            let mut ops = vec![];
+            for slot in 0..=2 * b.d {
+                for (j, s) in tuple.iter().enumerate() {
+                    if *s == slot {
+                        for g in CLUSTERS[cl[j] as usize] {
+                            ops.push(Op::Assign { tgt: 0, f: 0, g: *g });
+                        }
+                    }
+                }
+                if slot < b.d {
+                    ops.push(Op::Open);
+                } else if slot < 2 * b.d {
+                    ops.push(Op::Close);
+                }
+            }
+            let prog = Prog { family: "nest-clusters", kinds: vec![b.kind], targets: vec![(0, 0)], ops, rule: ValueRule::Counter, drain: false };
+            if let Some((built, _)) = run_case(idx, &prog, acc) {
+                if idx % 7001 == 3500 {
+                    acc.sample(idx, || json!({"family": "nest-clusters", "kind": b.kind.name, "history": prog.shape(prog.ops.len()), "program": built.src}));
+                }
+            }
+        });
+    }
+    // ---- (c) kind pairs, including \globaldefs as a kind
+    {
+        let len6 = ctx.pick(4usize, 5usize);
+        let len10 = ctx.pick(4usize, 5usize);
+        let mut blocks = Blocks::new();
+        let mut pairs = 0;
+        for a in 0..all.len() {
+            for b in a + 1..all.len() {
+                let (ka, kb) = (&all[a], &all[b]);
+                // the second kind uses its second target where it has one: kinds that share targets
+                // (the active characters ~ and !) then never write the same target through two kinds
+                let tb = if kb.targets.len() > 1 { 1 } else { 0 };
+                let mut tf: Vec<(u8, u8)> = vec![];
+                for (slot, k) in [(0u8, ka), (1u8, kb)] {
+                    if k.class == Class::GlobalDefs {
+                        tf.extend([(slot, 0), (slot, 1), (slot, 2)]);
+                    } else {
+                        tf.push((slot, 0));
+                    }
+                }
+                let alpha = alphabet(&tf);
+                let len = if alpha.len() > 6 { len10 } else { len6 };
+                pairs += 1;
+                blocks.push(HistBlock { kinds: vec![ka, kb], targets: vec![(0, 0), (1, tb)], len, alpha: alpha.clone() }, pow(alpha.len(), len));
+            }
+        }
+        run_hist_family(&mut ctx, "kind-pairs", &format!("every unordered pair of kinds ({pairs} pairs, \\globaldefs is one of the kinds with the assignments =1, =-1, =0): every history of exactly {len6} ops over {{, }}, local/\\global assignment to a target of kind A, local/\\global to a target of kind B ({len10} ops for the 10-op alphabets with \\globaldefs)"), blocks, 9001);
+    }
+    // ---- (xs) explicit-state search per kind, merged on the drained implementation state
+    if ctx.wants("xs-drained-state") {
+        let t = std::time::Instant::now();
+        let depth = ctx.pick(10usize, 64usize);
+        let mut total = Acc::default();
+        let mut per_kind = serde_json::Map::new();
+        let mut capped: Option<String> = None;
+        let alpha = alphabet(&[(0, 0)]);
+        for (ki, k) in all.iter().enumerate() {
+            if ki == gd_index {
+                continue;
+            }
+            let deadline = std::time::Instant::now() + std::time::Duration::from_secs_f64(ctx.remaining_s());
+            let init: (usize, Vec<Vec<String>>) = (0, vec![vec![k.targets[0].initial.clone()]]);
+            let (acc, stats) = vcore::xs::bfs(alpha.len(), depth, 2_000_000, ctx.threads, deadline, init, |h, acc| {
+                let prog = Prog { family: "xs-drained-state", kinds: vec![k], targets: vec![(0, 0)], ops: h.iter().map(|a| alpha[*a as usize]).collect(), rule: ValueRule::ByDepth, drain: true };
+                // bound of the search: nesting depth 0..8 (the property's range)
+                let mut d = 0i32;
+                for o in &prog.ops {
+                    match o {
+                        Op::Open => d += 1,
+                        Op::Close => d -= 1,
+                        _ => {}
+                    }
+                    if !(0..=8).contains(&d) {
+                        return None;
+                    }
+                }
+                let (built, points) = run_case(u64::MAX, &prog, acc)?;
+                // fingerprint = implementation observations: value at every open level (drained), depth
+                Some((built.depth, points[built.hist_points - 1..].to_vec()))
+            });
+            per_kind.insert(k.name.into(), json!({"states": stats.states, "transitions": stats.transitions, "levels_completed": stats.depth_completed, "frontier_sizes": stats.frontier_sizes, "fixpoint": stats.frontier_sizes.len() < depth || stats.depth_completed < depth, "capped": stats.capped}));
+            if stats.capped.is_some() && capped.is_none() {
+                capped = stats.capped.clone().map(|c| format!("{}: {c}", k.name));
+            }
+            total.merge(acc);
+        }
+        total.sample(0, || json!({"family": "xs-drained-state", "per_kind": per_kind.get("count")}));
+        ctx.extra("xs", json!({"history_length_bound": depth, "nesting_bound": 8, "per_kind": per_kind,
+            "fingerprint": "(depth, value of the target at every open level) read from the real VM by running the history followed by `}` x depth with a probe after each `}`; the assigned value is a function of (depth, prefix) so that merged states have equal futures in the model. States that differ only in whether a save-stack entry holds a value equal to the current one are not distinguished (the un-merged BEX families cover those)."}));
+        ctx.push_family("xs-drained-state", &format!("per kind: BFS over histories of {{, }}, local, \\global (first target, value = f(depth, prefix)) up to length {depth} at nesting depth <= 8, every history followed by a full drain with a probe after each `}}`; merged on the drained implementation state{}", if quick { "" } else { " (runs to the fixpoint: the complete reachable state space)" }), capped.is_none(), capped, t.elapsed().as_secs_f64(), total);
+    }
+
+    // informational, outside the property: \gdef under a negative \globaldefs (tex.web §1218: local)
+    {
+        let src = "{\\globaldefs=-1 \\gdef\\q{1}}\\q";
+        let e = execute(&format!(";{src}:"));
+        ctx.extra("outside_property", json!({"program": src, "tex_web_1218": "\\gdef is local when \\globaldefs<0, so \\q is undefined after the group", "texcraft": format!("{e:?}")}));
+    }
+    let w = WITNESSES.lock().unwrap();
+    ctx.extra("failing_kinds_shortest_witness", json!(w.iter().map(|(k, v)| (k.clone(), v.1.clone())).collect::<BTreeMap<_, _>>()));
+    drop(w);
+
+    ctx.require("global_purged_saved_value_at_depth_ge_2", "a global assignment discards a saved value that lives at nesting depth >= 2");
+    ctx.require("local_then_global_same_group", "local then global assignment to the same target inside one group");
+    ctx.require("global_then_local_same_group", "global then local assignment to the same target inside one group");
+    ctx.require("restore_of_value_shadowed_twice", "a closing group restores a value that itself shadows a saved value of an outer group");
+    ctx.require("active_char_target_restored", "a closing group restores an active-character definition");
+    ctx.require("font_restored", "a closing group restores the current font");
+    ctx.require("control_sequence_target_restored", "a closing group restores a control-sequence definition");
+    ctx.require("globaldefs_positive_forced_global", "an unprefixed assignment executed while \\globaldefs>0");
+    ctx.require("globaldefs_negative_overrode_global_prefix", "a \\global assignment executed while \\globaldefs<0");
+    ctx.require("nesting_depth_8_reached", "a history reaches nesting depth 8");
+    ctx.finish("a case is one operation history ({, }, local/\\global assignments) for one target kind or a pair of kinds, run as a TeX program on a fresh VM with a probe of every target after every op and compared with a stack-of-snapshots model at every probe; histories are enumerated exhaustively per family bound (index -> digits over the alphabet), never sampled; non-trivial = the history executes at least one `}` while the closing group holds a saved value for some target (computed on the model); distinct = distinct (kinds, history)");
 }
